@@ -448,6 +448,10 @@ func (opt *Option) Save(a ...string) error {
 				if in1 < in2 {
 					for j := in1; j <= in2; j++ {
 						ii = append(ii, j)
+						// Stop here explicitly, when in2 is the maximum int j++ overflows and the loop never ends.
+						if j == in2 {
+							break
+						}
 					}
 				} else {
 					// TODO: Create new error description for this error.
